@@ -348,14 +348,24 @@ def r5(ctx):
         ctx.inst(R, "advertised_window:shape", ok, aw.span, "min(cap.saturating_sub(len), u16::MAX)" if ok else "advertised_window is no longer min(cap - len, u16::MAX)")
         for bb, t in who_calls(ctx.w, "turmoil_net::kernel::tcp::advertised_window")[0:0]:
             pass
+    # which parameter is the capacity and which the occupancy is read off the helper itself (`cap.saturating_sub(len)`), not off the
+    # declaration order - a swap of the private helper's parameters together with all call sites changes nothing
+    ci, li = 0, 1
+    if aw:
+        for bb, t in aw.calls(re.compile(r"saturating_sub$")):
+            pa = [sorted(int(z.split(":")[1]) for z in Slicer(ctx.w).atoms(aw, x) if z.startswith("arg:")) for x in t["args"][:2]]
+            if len(pa) == 2 and len(pa[0]) == 1 and len(pa[1]) == 1 and pa[0] != pa[1]:
+                ci, li = pa[0][0] - 1, pa[1][0] - 1
     for b, bb, t in who_calls(ctx.w, "turmoil_net::kernel::tcp::advertised_window"):
-        a0 = Slicer(ctx.w).atoms(b, t["args"][0])
-        a1 = Slicer(ctx.w).atoms(b, t["args"][1])
-        c1 = op_const(t["args"][1])
+        if max(ci, li) >= len(t["args"]):
+            continue
+        a0 = Slicer(ctx.w).atoms(b, t["args"][ci])
+        a1 = Slicer(ctx.w).atoms(b, t["args"][li])
+        c1 = op_const(t["args"][li])
         ok = "field:" + K + "recv_buf_cap" in a0 and ("field:" + T + "recv_buf" in a1 or (c1 is not None and c1.get("v") == 0))
         if ok and c1 is None:
             # the occupancy is the buffer's length as it is now - not a figure corrected by what was just read (split_to already removed it)
-            o1 = origin(b, t["args"][1])
+            o1 = origin(b, t["args"][li])
             while o1["k"] == "cast":
                 o1 = o1["o"]
             ok = o1["k"] == "call" and re.search(r"::len$", o1["t"]["f"]) is not None and _on_field(b, o1["t"]["args"][0], T + "recv_buf")
